@@ -197,3 +197,29 @@ c.ensures('waits-for-exactly-the-union', 'iff(result[0], %s or %s)' % (DEN_P, DE
 c.ensures('same-when-executed-again', 'iff(result[1], result[0])')
 c.ensures('first-operand-unchanged', 'iff(result[2], %s)' % DEN_P)
 c.ensures('second-operand-unchanged', 'iff(result[3], %s)' % DEN_Q)
+
+
+# ---- three alternatives: a time matched only by the third one is matched (any number follows by the same clause per alternative)
+c = contract(T, 'three_alternatives', serves=['C11'], name='lemma:p.union(q); p.union(r); match', src='''
+def three_alternatives(p, q, r, H, M):
+    p.union(q)
+    p.union(r)
+    return (p.match(H, M), q.match(H, M), r.match(H, M))
+''')
+def _setup(b, case):
+    out = {}
+    for nm in ('p', 'q', 'r'):
+        hf = build_field(b, 'dd', nm + '_hours')
+        mf = build_field(b, case[nm], nm + '_minutes')
+        out[nm] = b.new(('bardolph.lib.time_pattern', 'TimePattern'), hf, mf)
+        out['_%sh' % nm], out['_%sm' % nm] = hf, mf
+    H, Mi = b.sym('int', 'H'), b.sym('int', 'M')
+    b.between(H, 0, 23)
+    b.between(Mi, 0, 59)
+    out['H'], out['M'] = H, Mi
+    return out
+c.setup(_setup)
+c.cases([{'p': 'dd', 'q': 'ds', 'r': 'sd'}, {'p': 'sd', 'q': 'dd', 'r': 'dd'}])
+DEN_R = '(field_matches(_rh, H) and field_matches(_rm, M))'
+c.ensures('exactly-the-union-of-all-three', 'iff(result[0], %s or %s or %s)' % (DEN_P, DEN_Q, DEN_R))
+c.ensures('operands-unchanged', 'iff(result[1], %s) and iff(result[2], %s)' % (DEN_Q, DEN_R))
